@@ -272,6 +272,16 @@ HARNESSES += [
 ]
 
 
+def winp(which, props):
+    return {"name": "win_process_" + which, "props": props, "src": "h_win_process.c", "contracts": [], "win": True, "tus": [],
+            "defs": {"WINP_" + which: None}, "native": False,
+            "what": "real process_%s of process.windows.c (compiled against the stub windows.h) against executable contracts "
+                    "of the Win32 calls it makes; loop-free, full domain of exit codes" % which}
+
+
+HARNESSES += [winp("wait", ["C01"]), winp("terminate", ["C07"]), winp("kill", ["C07"])]
+
+
 def api(name, props, what, **kw):
     d = {"name": "reproc_" + name, "props": props, "src": "h_api.c", "contracts": ["public.h"],
          "includes": ["reproc.c"], "enforce": "reproc_" + name, "defs": {"API_" + name: None, "VERIF_MAX_BUF": "(1ul<<40)"},
@@ -284,6 +294,8 @@ HARNESSES += [
     api("wait", ["C01", "C08", "C14", "C06", "C07", "C05", "C04"],
         "reproc_wait on a handle in any state satisfying the invariant, any timeout; pipe_poll, expiry, now, "
         "process_wait, pipe_destroy inlined down to the OS layer"),
+    api("new", ["C14", "C15", "C05"], "reproc_new: NULL on allocation failure or a fresh handle in the not-started state satisfying "
+        "the invariant; destroying it touches nothing and frees it (leak check)"),
     api("terminate", ["C07", "C06", "C14"], "reproc_terminate on any handle state"),
     api("kill", ["C07", "C06", "C14"], "reproc_kill on any handle state"),
     api("pid", ["C14"], "reproc_pid on any handle state"),
@@ -318,7 +330,7 @@ PROPERTY_META = {
                 "status, cached status returned without touching the OS, one blocking waitpid on the own child only after the "
                 "exit pipe was reported ready, reaps == 1.",
         "note": OS_NOTE + "That the kernel closes the exit pipe exactly at child exit is assumed. Windows not covered.",
-        "design_ref": "§3 C01", "not_decided": ["Windows process_wait"]},
+        "design_ref": "§3 C01", "not_decided": ["Windows: only process_wait's status mapping (harness win_process_wait); reproc_wait's socket-based exit detection is not covered"]},
     "C02": {"claimed": True, "level": "proof",
         "text": "The library's share of stream fidelity: pipe_read/pipe_write/reproc_read/reproc_write ask the kernel exactly once, on "
                 "the right descriptor, with the caller's buffer and size, and report what the kernel said; EPIPE only when read "
